@@ -165,6 +165,11 @@ Quiesce ==
      \* C08: an effective Close() has not returned (and torn the connection down) over a call this side had issued
      \*      before: such a call completes with the peer's reply or, if the connection is lost first, with an error
   /\ G("C08", st.closeReturned /\ st.closeEffective => \A i \in 1..Len(Ev.pending) : Ev.pending[i] \notin st.retBeforeClose)
+     \* C08: ... "and with a connection error only if the connection is lost first": once the connection is lost during a
+     \*      local Close() every call of this side is complete and Close() has returned (the rule of C02, read for C08)
+  /\ G("C08", st.closeCalled /\ st.connDown =>
+                 /\ \A i \in 1..Len(Ev.pending) : LegitPending(Ev.pending[i])
+                 /\ Len(Ev.unreturned) = 0)
   /\ UNCHANGED st /\ Step
 
 Known == {"Reset", "CallStart", "CallRet", "RemoteReply", "CallDone", "RemoteCall", "ConnDown", "HEnter",
